@@ -284,35 +284,68 @@ func (fx *FX) evalExpr(env *Env, e Expr) Val {
 		}
 		saved := map[string]Val{}
 		var decls []string
-		for i, v := range t.Vars {
-			if o, ok := env.bound[v]; ok {
-				saved[v] = o
+		// absolute-index form: for a single integer variable q used as x[q], quantify over the
+		// absolute array index a = off(x)+q so that the trigger select(array, a) has no arithmetic
+		anchorPat := ""
+		if len(t.Vars) == 1 && (t.Sorts[0] == "int" || t.Sorts[0] == "int64") {
+			if ax := findAnchor(t.Body, t.Vars[0]); ax != nil {
+				if xv, ok := fx.tryEval(env, ax); ok && xv.T.Sort == SSlice && xv.Typ != nil {
+					v := t.Vars[0]
+					if o, ok := env.bound[v]; ok {
+						saved[v] = o
+					}
+					n := "q_" + v + "_abs"
+					decls = append(decls, fmt.Sprintf("(%s %s)", n, SBV64))
+					qt := bvbin("bvsub", T(n, SBV64), sOff(xv.T))
+					qt.Signed = true
+					env.bound[v] = Val{T: qt, Typ: types.Typ[types.Int]}
+					es := w.SortOf(xv.Typ.Underlying().(*types.Slice).Elem())
+					if xv.Imm != nil {
+						anchorPat = Select(app(xv.Imm.fe, SArr(SBV64, es), xv.Imm.obj), T(n, SBV64)).S
+					} else {
+						mem := fx.comp(env.st, "M:"+sortID(es), SArr(SInt, SArr(SBV64, es)))
+						if strings.Contains(mem.S, "(") || strings.HasPrefix(mem.S, "m_") || strings.HasPrefix(mem.S, "mem!") {
+							// name the memory term so that it can appear in a pattern
+							named := fx.nameConst("qmem", mem)
+							env.st.comps["M:"+sortID(es)] = named
+							mem = named
+						}
+						anchorPat = Select(Select(mem, sReg(xv.T)), T(n, SBV64)).S
+					}
+				}
 			}
-			var srt string
-			signed := true
-			var typ types.Type
-			switch t.Sorts[i] {
-			case "int", "int64":
-				srt = SBV64
-				typ = types.Typ[types.Int]
-			case "uint64":
-				srt = SBV64
-				signed = false
-			case "byte":
-				srt = SBV8
-				signed = false
-			case "Int", "ref":
-				srt = SInt
-			case "bool":
-				srt = SBool
-			default:
-				srt = t.Sorts[i]
+		}
+		if anchorPat == "" {
+			for i, v := range t.Vars {
+				if o, ok := env.bound[v]; ok {
+					saved[v] = o
+				}
+				var srt string
+				signed := true
+				var typ types.Type
+				switch t.Sorts[i] {
+				case "int", "int64":
+					srt = SBV64
+					typ = types.Typ[types.Int]
+				case "uint64":
+					srt = SBV64
+					signed = false
+				case "byte":
+					srt = SBV8
+					signed = false
+				case "Int", "ref":
+					srt = SInt
+				case "bool":
+					srt = SBool
+				default:
+					srt = t.Sorts[i]
+				}
+				n := "q_" + v
+				decls = append(decls, fmt.Sprintf("(%s %s)", n, srt))
+				bt := T(n, srt)
+				bt.Signed = signed
+				env.bound[v] = Val{T: bt, Typ: typ}
 			}
-			n := "q_" + v
-			decls = append(decls, fmt.Sprintf("(%s %s)", n, srt))
-			bt := T(n, srt)
-			bt.Signed = signed
-			env.bound[v] = Val{T: bt, Typ: typ}
 		}
 		body := fx.evalBool(env, t.Body)
 		for _, v := range t.Vars {
@@ -324,6 +357,9 @@ func (fx *FX) evalExpr(env *Env, e Expr) Val {
 		q := "exists"
 		if t.All {
 			q = "forall"
+		}
+		if anchorPat != "" && strings.Contains(body.S, anchorPat) {
+			return Val{T: T(fmt.Sprintf("(%s (%s) (! %s :pattern (%s)))", q, strings.Join(decls, " "), body.S, anchorPat), SBool)}
 		}
 		return Val{T: T(fmt.Sprintf("(%s (%s) %s)", q, strings.Join(decls, " "), body.S), SBool)}
 	case *EField:
@@ -352,11 +388,15 @@ func (fx *FX) evalExpr(env *Env, e Expr) Val {
 			el := x.Typ.Underlying().(*types.Slice).Elem()
 			es := w.SortOf(el)
 			var r Term
+			at := bvbin("bvadd", sOff(x.T), i.T)
+			if pre := "(bvsub "; strings.HasPrefix(i.T.S, pre) && strings.HasSuffix(i.T.S, " "+sOff(x.T).S+")") {
+				at = T(strings.TrimSuffix(strings.TrimPrefix(i.T.S, pre), " "+sOff(x.T).S+")"), SBV64)
+			}
 			if x.Imm != nil {
-				r = Select(app(x.Imm.fe, SArr(SBV64, es), x.Imm.obj), bvbin("bvadd", sOff(x.T), i.T))
+				r = Select(app(x.Imm.fe, SArr(SBV64, es), x.Imm.obj), at)
 			} else {
 				mem := fx.comp(env.st, "M:"+sortID(es), SArr(SInt, SArr(SBV64, es)))
-				r = Select(Select(mem, sReg(x.T)), bvbin("bvadd", sOff(x.T), i.T))
+				r = Select(Select(mem, sReg(x.T)), at)
 			}
 			r.Signed = isSigned(el)
 			return Val{T: r, Typ: el}
@@ -928,4 +968,98 @@ func substExpr(e Expr, sub map[string]Expr) Expr {
 		return &EQuant{All: t.All, Vars: t.Vars, Sorts: t.Sorts, Body: substExpr(t.Body, inner)}
 	}
 	return e
+}
+
+// findAnchor returns the first sub-expression x such that x[v] occurs in e and x does not mention v.
+func findAnchor(e Expr, v string) Expr {
+	var found Expr
+	var walk func(e Expr)
+	mentions := func(e Expr) bool {
+		m := false
+		var w2 func(e Expr)
+		w2 = func(e Expr) {
+			switch t := e.(type) {
+			case *EIdent:
+				if t.Name == v {
+					m = true
+				}
+			case *EUnary:
+				w2(t.X)
+			case *EBinary:
+				w2(t.X)
+				w2(t.Y)
+			case *ECall:
+				for _, a := range t.Args {
+					w2(a)
+				}
+			case *EIndex:
+				w2(t.X)
+				w2(t.I)
+			case *EField:
+				w2(t.X)
+			case *ESlice:
+				w2(t.X)
+				if t.Lo != nil {
+					w2(t.Lo)
+				}
+				if t.Hi != nil {
+					w2(t.Hi)
+				}
+			case *EQuant:
+				w2(t.Body)
+			}
+		}
+		w2(e)
+		return m
+	}
+	walk = func(e Expr) {
+		if found != nil {
+			return
+		}
+		switch t := e.(type) {
+		case *EIndex:
+			if id, ok := t.I.(*EIdent); ok && id.Name == v && !mentions(t.X) {
+				found = t.X
+				return
+			}
+			walk(t.X)
+			walk(t.I)
+		case *EUnary:
+			walk(t.X)
+		case *EBinary:
+			walk(t.X)
+			walk(t.Y)
+		case *ECall:
+			for _, a := range t.Args {
+				walk(a)
+			}
+		case *EField:
+			walk(t.X)
+		case *ESlice:
+			walk(t.X)
+		case *EQuant:
+			for _, bv := range t.Vars {
+				if bv == v {
+					return
+				}
+			}
+			walk(t.Body)
+		}
+	}
+	walk(e)
+	return found
+}
+
+// tryEval evaluates e, reporting failure instead of aborting the contract.
+func (fx *FX) tryEval(env *Env, e Expr) (v Val, ok bool) {
+	defer func() {
+		if r := recover(); r != nil {
+			if _, isEval := r.(evalErr); isEval {
+				ok = false
+				return
+			}
+			panic(r)
+		}
+	}()
+	return fx.evalExpr(env, e), true
 }
